@@ -210,7 +210,7 @@ PROPS = {
         "assumptions": BOARD_ASSUME,
         "jobs": [
             chess_model("model-san", ["SanCanonical", "SanImplOK"], [], dict(MCQ, max_roots=30), dict(MCT, depth=1)),
-            board_job("san", ["san", "sanread"], ["C20"], {"histories": 120, "subtrees": 30}, {"histories": 30000, "subtrees": 400, "deep": 5}, sample_kinds=["san", "sanread"]),
+            board_job("san", ["san", "sanread"], ["C20"], {"histories": 120, "subtrees": 30, "roots-file": "roots/san.sfen"}, {"histories": 30000, "subtrees": 400, "deep": 5, "roots-file": "roots/san.sfen"}, sample_kinds=["san", "sanread"]),
         ],
     },
     "C17": {
